@@ -41,6 +41,13 @@ Inductive eop :=
 | EEstimate (v value : Z) (ok : bool)
 | EBlock (sn : list (Z * Z)) (total : Z) (elected_after : Z).
 
+(** Keeper level, one queued request: Keeper.AddMessageEvidence (refused iff the proof is absent or not
+    hashable) and CheckAndProcessAttestedMessages; [got] = -1 the request stays, >= 0 removed and the
+    applied answer is proofs[got], -3 removed (applied answer not identified by the harness). *)
+Inductive aop :=
+| ASubmit (v idx : Z) (ok : bool)
+| AProcess (got : Z).
+
 Inductive case :=
 | CMedian (s : list Z) (got : Z)
 | CEstimates (sn : list (Z * Z)) (total : Z) (es : list (Z * Z)) (got : Z)
@@ -51,7 +58,8 @@ Inductive case :=
 | CBytes (p : cproof) (got : option ctext)
 (** VerifyEvidence on structured proofs: [subs] = (validator, index into [proofs]); [got] = index of
     a proof with the winner's type and bytes, -1 = not achieved, -2 = failed *)
-| CEvidenceP (sn : list (Z * Z)) (total : Z) (proofs : list cproof) (subs : list (Z * Z)) (got : Z).
+| CEvidenceP (sn : list (Z * Z)) (total : Z) (proofs : list cproof) (subs : list (Z * Z)) (got : Z)
+| CAttest (sn : list (Z * Z)) (total : Z) (proofs : list cproof) (ops : list aop).
 
 (** Ideal (collision-free) group key: the pair itself. *)
 Definition ikey (tag data : Z) : Z * Z := code_key (fun t d => (t, d)) tag data.
@@ -122,6 +130,26 @@ Definition ev_eqb (a b : evidence) : bool :=
   (ev_val a =? ev_val b) && (ev_tag a =? ev_tag b) && (ev_data a =? ev_data b).
 Definition es_eqb (a b : estimate) : bool := (es_val a =? es_val b) && (es_value a =? es_value b).
 
+Definition ev_at (proofs : list cproof) (v idx : Z) : evidence :=
+  ev_of {| pe_val := v; pe_proof := proof_of (nth (Z.to_nat idx) proofs CPNone) |}.
+
+Fixpoint arun (sn : snapshot) (proofs : list cproof) (evs : list evidence) (ops : list aop) : bool :=
+  match ops with
+  | [] => true
+  | ASubmit v idx ok :: r =>
+      let e := ev_at proofs v idx in
+      if ev_bad e then negb ok && arun sn proofs evs r
+      else ok && arun sn proofs (add_evidence evs e) r
+  | AProcess got :: r =>
+      match verify_evidence ikeqb ikey (fun g => g) sn evs with
+      | Winner w =>
+          ((got =? -3) ||
+           ((0 <=? got) && let g := ev_at proofs 0 got in (ev_tag w =? ev_tag g) && (ev_data w =? ev_data g)))
+          && match r with [] => true | _ => false end
+      | _ => (got =? -1) && arun sn proofs evs r
+      end
+  end.
+
 Definition check (c : case) : bool :=
   match c with
   | CMedian s got => median64 s =? got
@@ -162,4 +190,5 @@ Definition check (c : case) : bool :=
       | NotAchieved => got =? -1
       | Failed => got =? -2
       end
+  | CAttest sn total proofs ops => arun {| sn_vals := sn; sn_total := total |} proofs [] ops
   end.
